@@ -20,6 +20,9 @@ DESER = [
     ("j", b"42", ("U", 42, [])),
     ("j", b'{"key":{"key":"key"}}', ("O", None, [(b"key", ("O", None, [(b"key", _s(b"key"))]))])),
     ("j", b"[]", ("A", None, [])),
+    # strings and keys with an embedded NUL whose prefix is already stored: look-ups must use the full length
+    ("j", b'["a","a\\u0000b","a\\u0000","a"]', ("A", None, [_s(b"a"), _s(b"a\x00b"), _s(b"a\x00"), _s(b"a")])),
+    ("j", b'{"x":1,"x\\u0000y":2,"x\\u0000":[3],"x":4}', ("O", None, [(b"x", ("U", 4, [])), (b"x\x00y", ("U", 2, [])), (b"x\x00", ("A", None, [("U", 3, [])]))])),
     ("j", b"[[],{},[[18446744073709551615]]]", ("A", None, [("A", None, []), ("O", None, []), ("A", None, [("A", None, [("U", 18446744073709551615, [])])])])),
     ("m", bytes.fromhex("9301a361626382a16b02a3616263fd"), ("A", None, [("I", 1, []), _s(b"abc"), ("O", None, [(b"k", ("I", 2, [])), (b"abc", ("I", -3, []))])])),
     ("m", bytes.fromhex("a26869"), _s(b"hi")),
